@@ -93,3 +93,14 @@ Proof.
   { unfold count, cnt. induction (assigns vs (fun _ => false)); cbn; auto. }
   rewrite H0 in H. rewrite N.sub_0_r in H. exact H.
 Qed.
+
+(* adding an unused variable (at the end of the list) doubles the count *)
+Lemma cnt_snoc_indep vs : forall (F : bfun) v e, ext F -> indep F v -> cnt (vs ++ [v]) F e = (2 * cnt vs F e)%nat.
+Proof.
+  induction vs as [|a vs IH]; intros F v e HF HI.
+  - cbn [app]. rewrite cnt_cons. unfold cnt. cbn [assigns filter length].
+    rewrite !(HI e). destruct (F e); reflexivity.
+  - cbn [app]. rewrite !cnt_cons. rewrite !IH by assumption. lia.
+Qed.
+Lemma count_snoc_indep vs (F : bfun) v : ext F -> indep F v -> count (vs ++ [v]) F = 2 * count vs F.
+Proof. intros HF HI. unfold count. rewrite cnt_snoc_indep by assumption. lia. Qed.
